@@ -69,12 +69,12 @@ def gen_obj(rng):
     r = rng.random()
     if r < 0.06:
         case['malformed'] = 'ps-lacks-status'; case['ps'] = [s for s in ps if s != rng.choice(ps)]
-    elif r < 0.09:
-        case['malformed'] = 'ps-none'; case['ps'] = None
     elif r < 0.2:
         case['default'] = True                       # a defaultdict like the simulators pass: absent nodes are ([tmin],['S'])
         if 'S' in ps and n > 1:
             case['absent'] = sorted(rng.sample(range(n), rng.randint(1, n - 1)))
+    if case['malformed'] is None and rng.random() < 0.15:
+        case['ps_given'] = False                     # possible_statuses=None: defaults to the statuses occurring in node_history
     # queries
     alltimes = sorted({F(t) for h in hist for t in h[0]})
     qt = set(alltimes) | {(a + b) / 2 for a, b in zip(alltimes, alltimes[1:])} | {tmin, alltimes[-1] + 1, alltimes[-1] + F(7, 2)}
@@ -108,26 +108,41 @@ def run_obj(EoN, nx, case):
     lab = L.Labels(labels); table = dict(L.STATUS_ID)
     hist_tok = {u: ([F(x) for x in h[0]], h[1]) for u, h in nh.items()}
     default = ([tmin], ['S']) if case['default'] else None
-    obj = L.inv_tokens(lab, labels, hist_tok, default, case['ps'], table)
+    given = case.get('ps_given', True)
+    # not given: the statuses occurring in the recorded histories (model: order of first appearance; the code's order is
+    # unspecified, so every comparison below is made per status)
+    ps_eff = list(case['ps']) if given else list(dict.fromkeys(s for u, h in nh.items() for s in h[1]))
+    obj = L.inv_tokens(lab, labels, hist_tok, default, case['ps'] if given else None, table)
     inv_table = lambda: {v: k for k, v in table.items()}
     # the effective histories (what the documentation calls the node's history)
     eff = {}
     for i, (times, stats) in enumerate(case['hist']):
         eff[labels[i]] = ([F(tmin)], ['S']) if i in absent else ([F(t) for t in times], list(stats))
     lines = []; impl = []; oracle = []
-    wellformed = case['malformed'] is None
+    # the oracle applies when every node's (effective) history uses possible statuses only
+    wellformed = case['malformed'] is None and all(s in ps_eff for h in eff.values() for s in h[1])
     try:
-        sim = EoN.Simulation_Investigation(G, nh, [], possible_statuses=case['ps'])
+        sim = EoN.Simulation_Investigation(G, nh, [], possible_statuses=case['ps'] if given else None)
     except Exception as e:
         lines.append('SUM %s 0' % obj); impl.append(('ERR', type(e).__name__)); oracle.append(None)
-        if case['malformed'] == 'ps-none':
+        if not given:
             # documented: "If not given, then defaults to the values in node_history"
             oracle[-1] = ('Simulation_Investigation.__init__/possible_statuses-None',
                           'Simulation_Investigation(G, node_history) without possible_statuses raises %s; documented: defaults to the statuses in node_history' % type(e).__name__)
         elif wellformed:
             oracle[-1] = ('Simulation_Investigation.__init__', 'constructor raised %s on legal histories' % type(e).__name__)
         return lines, impl, oracle
-    ps = case['ps']
+    ps = ps_eff
+    # the possible statuses themselves (as a set)
+    try:
+        r = ('OK', sorted(L.status_id(x, table) for x in sim._possible_statuses_))
+    except Exception as e:
+        r = ('ERR', type(e).__name__)
+    lines.append('PS ' + obj); impl.append(r)
+    o = None
+    if not given and r != ('OK', sorted({L.status_id(x, table) for x in ps_eff})):
+        o = ('Simulation_Investigation.__init__', 'possible_statuses not given: the object uses %r; the statuses occurring in node_history are %r' % (getattr(sim, '_possible_statuses_', None), ps_eff))
+    oracle.append(o)
 
     def fmt_summary(r):
         t, D = r
@@ -235,6 +250,8 @@ def model_answer(line, mo, table):
     tk = mo.split()
     if not tk: return ('BAD', mo)
     if tk[0] == 'ERR': return ('ERR', tk[1])
+    if cmd == 'PS':
+        return ('OK', sorted(int(x) for x in tk[1].split(',') if x) if len(tk) > 1 and tk[1] != 'ORDER' else [])
     if cmd == 'SUM':
         return ('OK', parse_rows(' '.join(tk[1:])))
     if cmd == 'NST':
@@ -408,7 +425,7 @@ def run(run, tier):
     if not ok:
         run.violation('C10/build', 'extracted model does not build: ' + log[-500:], {'log': log[-3000:]}, no_input=True)
         C.proof_coverage(run, props, 1, 0, 'build failed', [log[-300:]]); return
-    stats = {'objects': 0, 'queries': 0, 'malformed_objects': 0, 'transform': 0, 'sim_runs': 0, 'sim_errors': 0, 'sim_events': 0}
+    stats = {'objects': 0, 'queries': 0, 'malformed_objects': 0, 'possible_statuses_not_given': 0, 'transform': 0, 'sim_runs': 0, 'sim_errors': 0, 'sim_events': 0}
     spec_bad = {}; mism = {}; samples = []
     def note(d, key, size, what, case):
         if key not in d or size < d[key][0]: d[key] = (size, what, case)
@@ -420,6 +437,7 @@ def run(run, tier):
         ls, im, orc = run_obj(EoN, nx, c)
         stats['objects'] += 1; stats['queries'] += len(ls)
         if c['malformed']: stats['malformed_objects'] += 1
+        if not c.get('ps_given', True): stats['possible_statuses_not_given'] += 1
         lines += ls; impls += im; oracles += orc; owners += [c] * len(ls)
     outs = C.run_model(lines, 'inv')
     distinct = set(lines)
@@ -436,7 +454,7 @@ def run(run, tier):
         if ma != im:
             note(mism, line.split()[0], size, '%s: model %r, implementation %r' % (line.split()[0], ma, im), c)
         elif len(samples) < 2 and line.startswith('SUM') and im[0] == 'OK' and len(im[1]) > 3:
-            samples.append({'summary': {'histories': c['hist'], 'possible_statuses': c['ps'], 'rows': [(str(t), cs) for t, cs in im[1]]}})
+            samples.append({'summary': {'histories': c['hist'], 'possible_statuses': c['ps'] if c.get('ps_given', True) else None, 'rows': [(str(t), cs) for t, cs in im[1]]}})
     # ---- transform
     ntr = 150 if tier == 'quick' else 6000
     tcases = [gen_tr(rng) for _ in range(ntr)]
@@ -513,7 +531,7 @@ def run(run, tier):
     for key, (size, what, c) in spec_bad.items():
         run.violation('C10/%s' % key if key.startswith('Simulation_Investigation.__init__/') else 'C10/%s/spec' % key,
                       what[:700], {'case': jsonable(c), 'what': what})
-    real_spec = [k for k in spec_bad if not k.startswith('Simulation_Investigation.__init__/')]
+    real_spec = list(spec_bad)
     for key, (size, what, c) in mism.items():
         if real_spec:
             continue        # a concrete failing input of the property was found; the broken correspondence is its consequence
@@ -527,7 +545,7 @@ def run(run, tier):
     C.proof_coverage(run, props, n_eval, min(len(distinct) + len(chk), n_eval),
                      'Simulation_Investigation built directly from random legal node histories (1-8 nodes, int/shifted-int/str/tuple labels in permuted order; models SIR, SIS, SIRS, SEIR and a '
                      '3-status model with unrelated names; 0-4 changes per node on a dyadic grid so that nodes share change times; 5%% same-instant double changes; 11%% defaultdict histories '
-                     'with absent nodes; 6%% possible_statuses lacking a used status and 3%% possible_statuses=None as the malformed stream): summary() of all nodes and of two random '
+                     'with absent nodes; 15%% with possible_statuses not given (expected: the statuses occurring in node_history, compared per status); 6%% possible_statuses lacking a used status as the malformed stream): possible statuses, summary() of all nodes and of two random '
                      'node lists (15%% with repeats), t/S/I/R, node_status and get_statuses of every node at every change time, every midpoint, tmin and two times beyond the end (8%%: also '
                      'before tmin, model only); _transform_to_node_history_ on random SIR/SIS time tables incl. times equal to tmin; Gillespie_SIR/SIS and fast_SIR/SIS on random graphs (2-9 '
                      'nodes) run twice from identical seeds (plain / full data; explicit initial sets, initial_recovereds, rho): extracted checker `consistent` and the python oracle on the outputs. '
